@@ -1,7 +1,7 @@
 /-
   generate_js of every AST class and codegen/js.py (the three script wrappers).
-  The only write the JavaScript generators still make to the tree (after the F13/F14 repairs) is CallFunction.gv_as_sym;
-  as in GenLingo.lean the model is split into the text (`js …`) and the tree left behind (`afterJs …`).
+  After the F13/F14/F100 repairs the JavaScript generators write nothing to the tree: `afterJs` is the identity (proved in
+  DrxProofs/LscrGen.lean); it is kept in the same shape as `afterLingo` so that both generators are treated alike.
 -/
 import Drx.Lscr.GenLingo
 namespace Drx.Lscr
@@ -163,9 +163,7 @@ mutual
       if fm ∧ nm == Name.s (S "me") then .error .type    -- pars.operands on None
       else callJsCode nm ps
     | .callFn name _ (.loadList _ _ ops) _ inTell _, ind => do
-      let gv ← match ops with
-        | [] => pure false
-        | _ => isListFn name
+      let gv ← if ops.isEmpty then pure false else isListFn name
       let l ← jsStrs fm gv ops ind
       let (nm, ps) ← callJsName name inTell (.s (commaJoinRev l))
       if fm ∧ nm == Name.s (S "me") then
@@ -262,13 +260,7 @@ mutual
     | .toList p x => .toList p (afterJs x)
     | .toDict p x => .toDict p (afterJs x)
     | .stmt p code => .stmt p (afterJs code)
-    | .callFn name p (.loadList ln lp ops) up it wr =>
-      match ops with
-      | [] => .callFn name p (.loadList ln lp []) up it wr
-      | ops =>
-        let gv := match isListFn name with | .ok b => b | .error _ => false
-        let ops1 := afterJsList ops
-        .callFn name p (.loadList ln lp (if gv then mapLast symToGv ops1 else ops1)) up it wr
+    | .callFn name p (.loadList ln lp ops) up it wr => .callFn name p (.loadList ln lp (afterJsList ops)) up it wr
     | .callFn name p params up it wr => .callFn name p params up it wr
     | .callMethod n p o ps => .callMethod n p (afterJs o) (afterJs ps)
     | .repeat_ p e cond stmts type start varname sign =>
